@@ -28,14 +28,18 @@ MANIFEST = {
             'REAL completion / stop transactions with the REAL stop / pause / second completion check of another session '
             'committed at every pre-lock SQL statement (statement tap), final row + write statements + exception equal '
             'Mistral.Race.runWith on the generated script; monitor: a finished row is never altered, (state, output) come '
-            'from one party.',
+            'from one party. ACTION RESULT ACCEPTANCE (Props.C03RaceAction over the regenerated script of '
+            'on_action_complete -> RegularAction.complete; the translator also asserts that no lock / compare-and-swap is on '
+            'that path): action_complete_overwrites, action_accept_once_full_fails (two results handled concurrently are both '
+            'accepted, the later flush overwrites the accepted one: known finding, replayed on the real engine by the '
+            'race-action stream) and action_accept_once_partial (true at transaction granularity).',
     'note': 'Monitors observe committed snapshots after each event (one transaction may contain two compare-and-swaps: '
             'PAUSED->RUNNING->final on resume, modelled as a two-move path). Rerun is modelled in C12. Sub-transaction '
             'interleavings between processes ARE exhibited, at SQL-statement granularity, for the workflow row under '
             '_succeed_workflow / _fail_workflow / _cancel_workflow / Workflow.set_state (stop_workflow with any state, '
-            'force-fail) and the completion-check transaction, against arbitrary concurrent transactions on that row. They '
-            'are still NOT exhibited for: Task.set_state / Task.complete / defer, action-result acceptance (named locks + '
-            'accepted flag), pause / resume scripts, transactions over several rows (stop recursion into sub-workflows, '
+            'force-fail), the completion-check transaction, and the action row under RegularAction.complete, against '
+            'arbitrary concurrent transactions on that row. They are still NOT exhibited for: Task.set_state / '
+            'Task.complete / defer (the task row in the same transaction), WorkflowAction results, pause / resume scripts, transactions over several rows (stop recursion into sub-workflows, '
             'task and action rows), named locks, scheduler capture. Positions after the script\'s first successful write '
             'are the model\'s row-lock rule only (in-memory sqlite cannot make a second writer wait); the ORM dirty check '
             'and READ COMMITTED statement semantics are modelled and compared on sqlite, not on MySQL/PostgreSQL.',
@@ -46,14 +50,16 @@ RULE = ('stream lifecycle: EVERY state x EVERY operation (start/pause/resume/sto
         'non-trivial = an operation whose guard matters (all lifecycle cases) / a trace with an operator command; '
         'stream race-wf: 6 scenarios (completion check with verdict success/error/cancel, stop_workflow '
         'SUCCESS/ERROR/CANCELLED) x 5 interferers (stop CANCELLED/ERROR/SUCCESS, pause, second completion check) x every '
-        'pre-lock significant SQL statement of the script (exhaustive, 81 cases); non-trivial = the interferer changed the row')
+        'pre-lock significant SQL statement of the script (exhaustive, 81 cases); non-trivial = the interferer changed the row; '
+        'stream race-action: 3 pairs of results for one action execution x the 2 pre-lock statements of on_action_complete')
 TRUSTED = ['translate/states.py (AST read of states.py, fail closed)', 'harness seams replaced by recorders',
            'translate/race_scripts.py (AST, fail closed); harness/race_driver.py: SQL statement tap, thread-local swap for the '
            'second session; row-lock semantics (a second writer waits until commit) modelled, not executed on sqlite']
-LEAN_MODULES = ['Mistral.Props.C03', 'Mistral.Props.C03Race', 'Mistral.Props.C03RaceCac']
+LEAN_MODULES = ['Mistral.Props.C03', 'Mistral.Props.C03Race', 'Mistral.Props.C03RaceCac', 'Mistral.Props.C03RaceAction']
 RACE_CHUNKS = [{'family': 'wf', 'scenarios': ['cacSucceed', 'stopCancel']},
                {'family': 'wf', 'scenarios': ['cacFail', 'stopSuccess']},
-               {'family': 'wf', 'scenarios': ['cacCancel', 'stopError']}]
+               {'family': 'wf', 'scenarios': ['cacCancel', 'stopError']},
+               {'family': 'action'}]
 
 
 def correspond(ctx):
